@@ -27,6 +27,7 @@ type Program struct {
 	wrapErrT   types.Type
 	errIface   *types.Interface
 	LoadErrors []string
+	fnIndex    map[string]*ssa.Function
 }
 
 // Overlay maps /verif/harness/<rel>/file.go to /repo/<rel>/file.go and injects verifrt.
@@ -192,4 +193,41 @@ func (p *Program) initState(ex *Exec) *State {
 	s.status = Running
 	s.retSet = false
 	return s
+}
+
+// HarnessFuncs lists the VerifH_* functions of a module-relative package path.
+func (p *Program) HarnessFuncs(pkgRel string) []string {
+	var out []string
+	for _, sp := range p.Prog.AllPackages() {
+		if sp.Pkg.Path() != modPrefix+pkgRel {
+			continue
+		}
+		for name, m := range sp.Members {
+			if f, ok := m.(*ssa.Function); ok && strings.HasPrefix(name, "VerifH_") && f.Signature.Params().Len() == 0 {
+				out = append(out, name)
+			}
+		}
+	}
+	sort.Strings(out)
+	return out
+}
+
+// FuncSource returns the source text of the function with the given ssa name.
+func (p *Program) FuncSource(name string) string {
+	if p.fnIndex == nil {
+		p.fnIndex = map[string]*ssa.Function{}
+		for fn := range ssautil.AllFunctions(p.Prog) {
+			p.fnIndex[fn.String()] = fn
+		}
+	}
+	fn := p.fnIndex[name]
+	if fn == nil || fn.Syntax() == nil {
+		return name
+	}
+	st, en := p.Fset.Position(fn.Syntax().Pos()), p.Fset.Position(fn.Syntax().End())
+	b, err := os.ReadFile(st.Filename)
+	if err != nil || en.Offset > len(b) {
+		return name
+	}
+	return string(b[st.Offset:en.Offset])
 }
